@@ -241,7 +241,11 @@ func genC18(verifSeed int64, tier string, idx int) *core.Scenario {
 					ops = append(ops, Op{K: "WWriteFileOpt", D: r.Intn(nw), A: sfx, F: f, I: 1 + r.Intn(7)})
 				}
 			case k < 9 && nw > 0:
-				ops = append(ops, Op{K: "WWriteOpt", D: r.Intn(nw), F: c18RealFormats[r.Intn(3)], I: 1 + r.Intn(7)})
+				wo := Op{K: "WWriteOpt", D: r.Intn(nw), F: c18RealFormats[r.Intn(3)], I: 1 + r.Intn(7)}
+				if wo.F != string(formats.SPDX23JSON) && r.Intn(4) == 0 {
+					wo.I = -1 - r.Intn(3)
+				}
+				ops = append(ops, wo)
 			case nw+nr > 0 && r.Intn(3) == 0:
 				// configuring a live instance in place through its exported Options
 				ops = append(ops, Op{K: "Config", D: r.Intn(nw + nr), I: call, A: []string{"format", "render", "store", "fmtopts", "retrieve", "storagepath"}[r.Intn(6)]})
@@ -297,6 +301,17 @@ type c18env struct {
 	tasks    []*c18task
 	solo     map[string]string // format -> declared format found in solo output
 	ctorSeen int
+}
+
+// negIndentSPDX: the SPDX driver of the unchanged tree panics on a negative indent (strings.Repeat);
+// that is a matter of the driver and its option value, not of configuration isolation, so such
+// writes are left out (negative indents are still configured, observed, and written through CycloneDX).
+func negIndentSPDX(model snap, perCallFormat string) bool {
+	f := model["Format"]
+	if perCallFormat != "" {
+		f = perCallFormat
+	}
+	return f == string(formats.SPDX23JSON) && strings.HasPrefix(model["RenderOptions"], "indent=-")
 }
 
 func declaredFormat(b []byte) string {
@@ -471,8 +486,12 @@ func (env *c18env) mkOp(rec *opRec) func() string {
 					opts = append(opts, writer.WithFormat(formats.Format(op.F)))
 					model["Format"] = op.F
 				case "render":
-					opts = append(opts, writer.WithRenderOptions(&native.RenderOptions{Indent: 100 + op.I}))
-					model["RenderOptions"] = fmt.Sprintf("indent=%d", 100+op.I)
+					ind := 100 + op.I
+					if op.I%4 == 3 {
+						ind = -1 - op.I%5 // any int is a value of the option (what a driver makes of it is the driver's business)
+					}
+					opts = append(opts, writer.WithRenderOptions(&native.RenderOptions{Indent: ind}))
+					model["RenderOptions"] = fmt.Sprintf("indent=%d", ind)
 				case "serialize":
 					opts = append(opts, writer.WithSerializeOptions(&native.SerializeOptions{}))
 					model["SerializeOptions"] = "set"
@@ -589,6 +608,9 @@ func (env *c18env) mkOp(rec *opRec) func() string {
 				return "none"
 			}
 			in := t.writers[op.D%len(t.writers)]
+			if negIndentSPDX(in.model, "") {
+				return "skip:negative-indent-spdx"
+			}
 			s := &sink{}
 			err := in.w.WriteStream(env.doc, s)
 			want := in.model["Format"]
@@ -646,6 +668,9 @@ func (env *c18env) mkOp(rec *opRec) func() string {
 				t.probes["file write on an instance without a format"]++
 			}
 			var err error
+			if negIndentSPDX(in.model, "") && (op.K == "WWriteFile" || op.F == "") {
+				return "skip:negative-indent-spdx"
+			}
 			if op.K == "WWriteFile" {
 				err = in.w.WriteFile(env.doc, path)
 			} else {
